@@ -3,6 +3,8 @@
    regenerated from arena.c / segment.c (MiVerif/Gen/Purge.lean), so a changed comparison changes these theorems'
    subject.  Times are milliseconds of the virtual clock (non-negative integers); `delay` is
    purge_delay * arena_purge_mult for arenas and purge_delay for segments. -/
+import MiVerif.Lemmas.ArenaGenProofs
+import MiVerif.Gen.Commit
 import MiVerif.Model.Purge
 
 namespace C18
@@ -170,5 +172,42 @@ theorem segment_schedule_bound (delay extend now : Int) (s : SSt) (hd : 0 < dela
 example : AInv 10 (aFree 10 0 a0).1 ∧ (aFree 10 0 a0).1.pend = true ∧ (aTryPurge 10 20 (aFree 10 0 a0).1).2 = true := by
   refine ⟨⟨by decide, fun _ => by decide, (fun h => by revert h; decide)⟩, by decide, by decide⟩
 example : sTryPurge 15 (sSchedule 10 1 0 s0).1 = ({ expire := 0, pend := false }, true) := by decide
+
+/-- the same bound over `mi_segment_schedule_purge` as *generated from src/segment.c* (Gen/Commit.lean): every schedule with a positive
+    delay moves the expiry at most `max delay extend` beyond `max (old expiry) now` and never makes it negative -/
+theorem generated_segment_schedule_bound (σ : GenC.SegSt) (p size delay now ext : Int) (nr og : Bool) (tp : GenC.SegSt → GenC.SegSt)
+    (hd : 0 < delay) (he : 0 ≤ ext) (hn : 0 < now) (hexp : 0 ≤ σ.expire) (htp : ∀ τ, (tp τ).expire = 0) :
+    (GenC.mi_segment_schedule_purge σ p size delay nr og now ext tp).expire ≤ max σ.expire now + max delay ext ∧
+    0 ≤ (GenC.mi_segment_schedule_purge σ p size delay nr og now ext tp).expire := by
+  unfold GenC.mi_segment_schedule_purge
+  simp only []
+  have hd0 : ¬ (delay = 0) := by omega
+  split
+  · exact ⟨by omega, hexp⟩
+  · simp only [decide_eq_true_eq, hd0, if_false]
+    split
+    · exact ⟨by omega, hexp⟩
+    · split
+      · exact ⟨by simp only []; omega, by simp only []; omega⟩
+      · split
+        · split
+          · rw [htp]; exact ⟨by omega, by omega⟩
+          · exact ⟨by simp only []; omega, by simp only []; omega⟩
+        · exact ⟨by simp only []; omega, by simp only []; omega⟩
+
+/-- ... and the first registration of a purge (no expiry pending, the range contains a whole commit unit) expires exactly `delay` after now -/
+theorem generated_segment_first_registration (σ : GenC.SegSt) (p size delay now ext : Int) (nr og : Bool) (tp : GenC.SegSt → GenC.SegSt)
+    (hd : 0 < delay) (hallow : σ.allowPurge = true) (h0 : σ.expire = 0)
+    (hne : (GenC.mEmpty (GenC.commitMask σ 1 p size).2.2 || decide ((GenC.commitMask σ 1 p size).2.1 = 0)) = false) :
+    (GenC.mi_segment_schedule_purge σ p size delay nr og now ext tp).expire = now + delay := by
+  unfold GenC.mi_segment_schedule_purge
+  have hd0 : ¬ (delay = 0) := by omega
+  simp only [hallow, Bool.not_true, Bool.false_eq_true, if_false, decide_eq_true_eq, hd0, hne, h0, if_true]
+
+/-- over `mi_arena_schedule_purge` as *generated from src/arena.c* (Gen/ArenaGen.lean): with a positive delay a pending arena expiry is never
+    changed by a later free, and a new one is exactly `now + delay` — so freed arena memory becomes due `delay` after the FIRST free -/
+theorem generated_arena_schedule_expire (σ : GenR.ArSt) (idx n delay : Int) (nr1 g1 nr2 g2 : Bool) (now : Int) (hd : 0 < delay) :
+    (GenR.mi_arena_schedule_purge σ idx n delay false nr1 g1 nr2 g2 now).expire = (if σ.expire = 0 then now + delay else σ.expire) :=
+  C07A.gen_schedule_expire σ idx n delay nr1 g1 nr2 g2 now hd
 
 end C18
